@@ -233,6 +233,16 @@ def step (d : DState) (line : String) : DState × String :=
       | _, _ => (d, "bad-op")
     | _ => (d, "bad-op")
   | _ =>
+    -- status T: the deadliner answers Scheduled, the duty is trimmed before the store: `trim; call`
+    let (d, toks) := match toks with
+      | [k, du, "T", cb, es] =>
+        match parseDuty du with
+        | some du' =>
+          let d := { d with duties := if d.duties.contains du' then d.duties else du' :: d.duties }
+          let (s', _) := CharonV.ParSigDB.step d.cfg d.st (.trim du')
+          ({ d with st := s' }, [k, du, "S", cb, es])
+        | none => (d, toks)
+      | _ => (d, toks)
     match parseCall toks with
     | some c => doCalls d [c] target
     | none => (d, "bad-op")
